@@ -101,6 +101,7 @@ Process(b, name) ==
 
 Apply(b, ev) ==
     CASE ev.cb = "decl_parameter" -> DeclParameter(b, ev.a)
+      [] ev.cb = "decl_func_begin" -> [b EXCEPT !.params = <<>>]          \* the pending parameter frame becomes the function's (StatementBuilder::decl_func_begin)
       [] ev.cb = "proc_begin" -> ProcBegin(b, ev.a)
       [] ev.cb = "proc_end" -> ProcEnd(b)
       [] ev.cb = "proc_location" -> ProcLocation(b, ev.a)
